@@ -27,6 +27,7 @@
 #include <unistd.h>             /* getpid() */
 
 #include "signals.h"
+#include "verif.h"
 
 
 #define EX_FAIL 1
@@ -243,6 +244,9 @@ halt(void)
 
   switch (sig) {
   default:
+#ifdef KJN_LBZIP2_VERIF
+    verif_flush();
+#endif
     cleanup();
     terminate(sig);
 
@@ -303,6 +307,9 @@ void
 bailout(void)
 {
   if (pthread_equal(pthread_self(), main_thread)) {
+#ifdef KJN_LBZIP2_VERIF
+    verif_flush();
+#endif
     cleanup();
     gcov_flush();
     xmask(SIG_UNBLOCK, &blocked, NULL);
